@@ -332,6 +332,44 @@ func lateContains(m map[string]int, k string) bool { return deriveContains(deriv
 `
 		return []pgen.PItem{{TItem: pgen.TItem{T: pgen.Ptr(s.SV), Ops: []string{"gostring"}}}}, map[string]string{"p/late.go": late}
 	})
+	// structs that are not ==-comparable because of a blank field (or a zero-length array of a non-comparable
+	// type): helpers that choose between a Go map and the hash / equal path must take the latter
+	mk("noncomparable-blank", func(u *pgen.Universe, s *pgen.Std) ([]pgen.PItem, map[string]string) {
+		src := `package p
+
+type KBlank struct {
+	A int
+	_ [0]func()
+}
+
+type KBytes struct {
+	A string
+	_ []byte
+}
+
+type KZero struct {
+	A int
+	Z [0][]int
+}
+
+func nbUnique(l []KBlank) []KBlank { return deriveUniqueKB(l) }
+
+func nbContains(l []KBytes, x KBytes) bool { return deriveContainsKB(l, x) }
+
+func nbUnion(a, b []KZero) []KZero { return deriveUnionKZ(a, b) }
+
+func nbIntersect(a, b []KBlank) []KBlank { return deriveIntersectKB(a, b) }
+
+func nbF(k KBlank) int { return k.A }
+
+func nbMem() func(KBlank) int { return deriveMemKB(nbF) }
+
+func nbG(k KBytes, n int) string { return k.A }
+
+func nbMem2() func(KBytes, int) string { return deriveMemKB2(nbG) }
+`
+		return []pgen.PItem{{TItem: pgen.TItem{T: pgen.Ptr(s.SV), Ops: []string{"hash"}}}}, map[string]string{"p/noncomparable.go": src}
+	})
 	// user types named like the parameters and variables generated code introduces: inside a generated
 	// body such a name no longer denotes the type
 	for _, nm := range hostileTypeNames {
